@@ -20,6 +20,9 @@ event grammar for sessions with one endpoint per address; timing (keep-alives, t
 default) stays with the monitor.
 -/
 import GgrsModel.Model.Inventory
+import GgrsModel.Model.Sites.Protocol
+import GgrsModel.Model.Sites.P2pSession
+import GgrsModel.Model.Sites.SpectatorSession
 import GgrsModel.Proofs.Endpoint
 import GgrsModel.Proofs.Events
 import GgrsModel.Model.P2P
